@@ -437,7 +437,98 @@ var c14RandomGraphs = &vlib.Check{
 	},
 }
 
-func init() { vlib.Register(c14Names, c14RandomNames, c14Graphs, c14RandomGraphs) }
+// c14Chains: acyclic include chains through directories in which files share their base names (index.jst, a.jst): an
+// include stack keyed by anything less than the full path would report a false recursion.
+var c14Chains = &vlib.Check{
+	Prop: "C14", Name: "same-name-chains", Quick: 1500, Thorough: 60000,
+	Oracle: func(c *vlib.Case) *vlib.Violation {
+		b := vlib.Build(c.Project)
+		defer b.Close()
+		if b.Out.Crashed() {
+			return nil
+		}
+		if !b.Out.OK() {
+			return vlib.V("c14:acyclic-chain-refused:"+errClass(b.Out.Msg), "an acyclic include chain through same-named files is rejected: %s", b.Out.Brief())
+		}
+		js, err := b.Api.ToJson()
+		if err != nil {
+			return nil
+		}
+		want, _ := c.Params["responses"].(string)
+		doc, err := vlib.ParseOrdered(js)
+		if err != nil {
+			return nil
+		}
+		var got []string
+		if rs := doc.Get("interactions").Get("http GET /a").Get("responses"); rs != nil {
+			for _, r := range rs.Vals {
+				got = append(got, r.S("code"))
+			}
+		}
+		if strings.Join(got, ",") != want {
+			return vlib.V("c14:flattening", "responses %v, the include chain flattens to %s", got, want)
+		}
+		return nil
+	},
+	Classify: func(c *vlib.Case) (bool, []string) { return true, []string{fmt.Sprintf("depth-%v", c.Params["depth"])} },
+	SampleOf: func(c *vlib.Case) any { return c.Project.Summary(300) },
+	Gen: func(t *rapid.T) *vlib.Case {
+		r := vlib.RapidRnd{T: t}
+		depth := 2 + r.Intn(4)
+		base := vlib.Pick(r, []string{"index.jst", "a.jst", "root.jst"})
+		p := &vlib.Project{Root: "root.jst", Files: map[string][]byte{}, Dirs: []string{"."}}
+		var codes []string
+		dir := ""
+		prev := "root.jst"
+		content := map[string]*strings.Builder{"root.jst": {}}
+		content["root.jst"].WriteString("JSIGHT 0.3\nGET /a\n  200 any\n")
+		codes = append(codes, "200")
+		for i := 1; i <= depth; i++ {
+			sub := vlib.Pick(r, []string{"users", "admin", "x"})
+			ndir := dir + sub + "/"
+			name := ndir + base
+			rel := strings.TrimPrefix(name, dir)
+			content[prev].WriteString("  INCLUDE " + rel + "\n")
+			if vlib.Chance(r, 1, 3) { // the same file twice in a row is legal repetition
+				content[prev].WriteString("  INCLUDE " + rel + "\n")
+			}
+			if _, ok := content[name]; !ok {
+				content[name] = &strings.Builder{}
+			}
+			code := fmt.Sprint(200 + i)
+			content[name].WriteString("  " + code + " any\n")
+			prev, dir = name, ndir
+		}
+		for n, sb := range content {
+			p.Files[n] = []byte(sb.String())
+		}
+		// reference flattening by simulation
+		var flat func(name string, guard int) []string
+		flat = func(name string, guard int) []string {
+			var out []string
+			if guard > 50 {
+				return out
+			}
+			for _, line := range strings.Split(string(p.Files[name]), "\n") {
+				f := strings.Fields(line)
+				if len(f) == 2 && f[0] == "INCLUDE" {
+					d := ""
+					if i := strings.LastIndex(name, "/"); i >= 0 {
+						d = name[:i+1]
+					}
+					out = append(out, flat(d+f[1], guard+1)...)
+				} else if len(f) == 2 && f[1] == "any" {
+					out = append(out, f[0])
+				}
+			}
+			return out
+		}
+		_ = codes
+		return &vlib.Case{Project: p, Params: map[string]any{"depth": depth, "responses": strings.Join(flat("root.jst", 0), ",")}}
+	},
+}
+
+func init() { vlib.Register(c14Names, c14RandomNames, c14Graphs, c14RandomGraphs, c14Chains) }
 
 func TestC14(t *testing.T) {
 	ev := vlib.Ev("C14")
@@ -546,4 +637,5 @@ func TestC14(t *testing.T) {
 	}
 	t.Run("names-random", c14RandomNames.Run)
 	t.Run("graphs-random", c14RandomGraphs.Run)
+	t.Run("same-name-chains", c14Chains.Run)
 }
